@@ -48,7 +48,7 @@ def b_moments_flagged(ctx):
 
 def main(tier, seed):
     quick = tier == "quick"
-    items = standard_items(seed, tier, 14, 120, bench_quick=6, ngoals=4)
+    items = standard_items(seed, tier, 8, 120, bench_quick=3, ngoals=4, corpus_quick=9)
     # declared instead of inferred types: generated programs know the value sets of their finite variables
     extra = []
     for it in items:
@@ -58,7 +58,7 @@ def main(tier, seed):
             types = dict(g.fvals)
             text = gen.render(gen.to_text_template(T), types={k: v for k, v in types.items()})
             extra.append(dict(it, id=it["id"] + "-declared", text=text, types=types, user_typed=sorted(types)))
-    items += extra[: (6 if quick else 80)]
+    items += extra[: (4 if quick else 80)]
     variants = [("", {}), ("-c2a", {"cond2arithm": True}), ("-tc", {"transform_categoricals": True}),
                 ("-cyc", {"__force_cyclic": True}), ("-nr", {"numeric_roots": True, "numeric_eps": 1e-10}),
                 ("-ncr", {"numeric_croots": True})]
